@@ -167,7 +167,8 @@ class RawMeshData:
                 if is_valid(a,b):
                     new_edges.append(utils.keyify(a,b))
                     for name in new_attrs:
-                        if ie in old_attrs[name]: # keep sparsity of the attribute
+                        old = old_attrs[name]
+                        if not isinstance(old._data, dict) or ie in old._data: # keep sparsity of the attribute (dense ones hold every index)
                             new_attrs[name][n] = old_attrs[name][ie]
                     n+=1
             self.edges = new_edges
